@@ -109,9 +109,17 @@ pub fn run(args: &Args) -> Report {
                     replayed += 1;
                     let got = (validator::max_faulty_weight(n), validator::quorum_threshold(n), validator::subquorum_threshold(n));
                     // through Schedule as well (one validator of weight n, and n-1 + 1)
-                    let mk = |ws: Vec<u64>| Schedule::new(ws.into_iter().enumerate().map(|(i, w)| ValidatorInfo { key: keys[i].public(), weight: w, leader: true }), LeaderSelection::default());
-                    let sch = if n >= 2 { mk(vec![n - 1, 1]) } else { mk(vec![n]) };
-                    let via = sch.map(|s| (s.total_weight(), s.max_faulty_weight(), s.quorum_threshold(), s.subquorum_threshold()));
+                    // ... in every leader-eligibility pattern: the thresholds are functions of the TOTAL weight
+                    let mk = |ws: Vec<u64>, leaders: u32| Schedule::new(ws.into_iter().enumerate().map(|(i, w)| ValidatorInfo { key: keys[i].public(), weight: w, leader: leaders >> i & 1 == 1 }), LeaderSelection::default());
+                    let shapes: Vec<(Vec<u64>, u32)> = if n >= 2 { vec![(vec![n - 1, 1], 0b11), (vec![n - 1, 1], 0b01), (vec![n - 1, 1], 0b10)] } else { vec![(vec![n], 0b1)] };
+                    let mut via = Ok((n, f, q, s));
+                    for (ws, leaders) in shapes {
+                        let v = mk(ws, leaders).map(|s| (s.total_weight(), s.max_faulty_weight(), s.quorum_threshold(), s.subquorum_threshold()));
+                        if v.as_ref().ok() != Some(&(n, f, q, s)) {
+                            via = v;
+                            break;
+                        }
+                    }
                     if got != (f, q, s) || via.as_ref().ok() != Some(&(n, f, q, s)) {
                         if !rep.violations.iter().any(|v| v.key == "model_vs_code") {
                             rep.violations.push(Violation { key: "model_vs_code".into(), what: format!("model state n={n} f={f} q={q} s={s} but code computes {:?} (Schedule: {:?})", got, via.ok()), replay: json!({"harness":"c07", "n": n}) });
@@ -194,6 +202,33 @@ pub fn run(args: &Args) -> Report {
     if let Some((n, e)) = first_err.into_inner().unwrap() {
         rep.violations.push(Violation { key: "arithmetic".into(), what: e, replay: json!({"harness":"c07", "n": n}) });
     }
+    let schedule_cases;
+    // Schedule methods == free functions of the total weight, for every weight vector over {1,2,3,7} up
+    // to 4 validators and every non-empty leader subset
+    {
+        let keys = util::validator_keys(args.seed, 4);
+        let mut cases = 0u64;
+        for len in 1..=4usize {
+            for ws in util::vectors(len, &[1, 2, 3, 7]) {
+                for leaders in 1u32..(1 << len) {
+                    cases += 1;
+                    let total: u64 = ws.iter().sum();
+                    let want = (total, validator::max_faulty_weight(total), validator::quorum_threshold(total), validator::subquorum_threshold(total));
+                    match catch(|| Schedule::new(ws.iter().enumerate().map(|(i, w)| ValidatorInfo { key: keys[i].public(), weight: *w, leader: leaders >> i & 1 == 1 }), LeaderSelection::default())) {
+                        Ok(Ok(s)) => {
+                            let got = (s.total_weight(), s.max_faulty_weight(), s.quorum_threshold(), s.subquorum_threshold());
+                            if got != want && !rep.violations.iter().any(|v| v.key == "schedule_thresholds") {
+                                rep.violations.push(Violation { key: "schedule_thresholds".into(), what: format!("Schedule with weights {ws:?}, leader-eligible subset {leaders:#b}: (total, f, quorum, sub-quorum) = {got:?}, the threshold functions of the total weight give {want:?}"), replay: json!({"harness":"c07","weights":ws,"leaders":leaders}) });
+                            }
+                        }
+                        Ok(Err(_)) => {}
+                        Err(p) => rep.violations.push(Violation { key: "schedule_new_panic".into(), what: format!("Schedule::new panicked for weights {ws:?}: {p}"), replay: json!({"harness":"c07","weights":ws}) }),
+                    }
+                }
+            }
+        }
+        schedule_cases = cases;
+    }
     // Schedule::new at the overflow boundary
     let keys = util::validator_keys(args.seed, 3);
     let mk = |ws: &[u64]| catch(|| Schedule::new(ws.iter().enumerate().map(|(i, w)| ValidatorInfo { key: keys[i].public(), weight: *w, leader: true }), LeaderSelection::default()));
@@ -234,7 +269,7 @@ pub fn run(args: &Args) -> Report {
         "tlc_max_n": tlc_max,
         "rust_enumerated_n": total.load(SeqCst),
         "rust_ranges": ranges.iter().map(|(a,b)| format!("[{a},{b}]")).collect::<Vec<_>>(),
-        "schedule_new_boundary_cases": boundary,
+        "schedule_new_boundary_cases": boundary, "schedules_with_mixed_leader_eligibility": schedule_cases,
         "evaluations": total.load(SeqCst) + replayed,
         "distinct_nontrivial": total.load(SeqCst),
         "rule": "every n of the listed ranges evaluated on the real max_faulty_weight/quorum_threshold/subquorum_threshold against a u128 transcription and the inequalities; every TLC state of the model (n <= tlc_max_n) replayed against the same functions and Schedule's methods; Apalache decides the model invariant for every n in 1..2^64-1",
